@@ -255,9 +255,10 @@ fn c18_o5a_address_vote() {
 //@ cap: 2400
 //@ standins: tracing lru vcoll
 //@ desc: adaptive chain, step 2: a ping request arriving from exactly the recorded public address clears firewalled (and re-keys both tables with a BEP42 id iff the current id is not valid for that IP); any other request, or a ping from any other address, leaves firewalled unchanged (NAT case: the self-ping never arrives)
-//@ bounds: public address from {10.0.0.1:6881 (private), 8.8.8.8:6881 (public)}; sender symbolic; request kind ping / find_node; unwind 26
+//@ bounds: public address from {10.0.0.1:6881 (private), 8.8.8.8:6881 (public)}; sender symbolic; request kind ping / find_node; unwind 26, RoutingTableIterator::next 163 (bucket indices 0..=160)
 //@ stubs: Server::handle_request -> flagged cut (client mode); Instant::now; getrandom::fill (BEP42 id draw)
 //@ functions: Core::handle_request, Core::does_verify_our_new_public_address_with_self_ping, RoutingTable::reset_id, Id::from_ipv4
+//@ unwindset: RoutingTableIterator = 163
 #[kani::proof]
 #[kani::stub(crate::core::server::Server::handle_request, server_cut)]
 #[kani::stub(std::time::Instant::now, clock::now)]
